@@ -324,6 +324,8 @@ class Interp:
 
 
 def eval_history(case):
+    from ..core import set_callform
+    set_callform(0)          # histories fix the call form of every step themselves
     warnings.simplefilter("ignore")
     it = Interp()
     for s in case["steps"]:
@@ -381,6 +383,8 @@ def machine(ctx):
     class PPGMachine(RuleBasedStateMachine):
         def __init__(self):
             super().__init__()
+            from ..core import set_callform
+            set_callform(0)
             self.steps = []
             self.it = Interp()
             self.done = False
